@@ -183,6 +183,11 @@ def dot_sanitiser(facts):
                 for i, t in b.calls():
                     if norm_path(t["f"]["path"]) in ("core::ops::Fn::call", "core::ops::FnMut::call_mut", "core::ops::FnOnce::call_once") and t["args"]:
                         rr = named_roots(b, t["args"][0])
+                        ce = strip_casts(b.expr(t["args"][0], 8))
+                        while isinstance(ce, tuple) and ce[0] == "ref":
+                            ce = strip_casts(ce[2])
+                        if isinstance(ce, tuple) and ce[0] == "agg":
+                            continue        # a closure of graph_fmt itself that merely captures the user closure: its body is checked like graph_fmt's
                         if rr & {("arg", 3), ("arg", 4)}:
                             o.r.bad(Violation("FLOW-DOT", b.npath, "raw-call", b.file, t["line"],
                                               "graph_fmt calls a user formatting closure directly with the raw formatter (unescaped label)"))
@@ -202,6 +207,26 @@ def dot_sanitiser(facts):
                             break
                     has_ix = any(isinstance(s, tuple) and s[0] == "call" and norm_path(s[1]["path"]) == "visit::NodeIndexable::to_index" for s in walk_expr(e))
                     has_id = any(isinstance(s, tuple) and s[0] == "call" and norm_path(s[1]["path"]) == "visit::NodeRef::id" for s in walk_expr(e))
+                    if not (has_ix and has_id):
+                        # the value may be produced by a closure of graph_fmt (`flag.then(|| g.to_index(node.id()))`) and travel through an Option
+                        e3 = root.expr_at(o_, i, j, 24)
+                        for s3 in walk_expr(e3):
+                            if isinstance(s3, tuple) and s3[0] == "agg" and len(s3) > 1 and isinstance(s3[1], str) and "{closure" in s3[1] and facts.body(s3[1]) is not None:
+                                paths3 = {norm_path(t3["f"]["path"]) for _, t3 in facts.body(s3[1]).calls()}
+                                if "visit::NodeIndexable::to_index" in paths3 and "visit::NodeRef::id" in paths3:
+                                    has_ix = has_id = True
+                        for s in list(walk_expr(e)) + list(walk_expr(e3)):
+                            if isinstance(s, tuple) and s[0] == "local":
+                                for d_ in root.defs().get(s[1], []):
+                                    if d_[0] == "st":
+                                        rv3 = root.blocks[d_[1]]["st"][d_[2]]["rv"]
+                                        if rv3["k"] == "use" and op_place(rv3["o"][0]) is not None:
+                                            for s3 in walk_expr(root.expr_at({"copy": {"l": op_place(rv3["o"][0])["l"], "p": []}}, d_[1], d_[2], 10)):
+                                                if isinstance(s3, tuple) and s3[0] == "agg" and len(s3) > 1 and facts.body(s3[1]) is not None:
+                                                    cb3 = facts.body(s3[1])
+                                                    paths3 = {norm_path(t3["f"]["path"]) for _, t3 in cb3.calls()}
+                                                    if "visit::NodeIndexable::to_index" in paths3 and "visit::NodeRef::id" in paths3:
+                                                        has_ix = has_id = True
                     if has_ix and has_id:
                         nid += 1
         o.check(root, "node-stmt-index", root.line, nid >= 2, "%d node id(s) printed as to_index(node.id()) (statement and NodeIndexLabel)" % nid,
